@@ -47,6 +47,7 @@ from netqasm.qlink_compat import (
     LinkLayerOKTypeK,
     LinkLayerOKTypeM,
     LinkLayerOKTypeR,
+    RandomBasis,
     RequestType,
     ReturnType,
     get_creator_node_id,
@@ -1063,6 +1064,10 @@ class Executor:
             else:
                 kwargs[field] = arg
         kwargs["type"] = RequestType(kwargs["type"])  # type: ignore
+        # The random-basis entries travel as plain integers in the argument array;
+        # the link-layer interface (and request_to_qlink_1_0) expects enum members.
+        for field in ("random_basis_local", "random_basis_remote"):
+            kwargs[field] = RandomBasis(kwargs[field])  # type: ignore
 
         return LinkLayerCreate(**kwargs)
 
